@@ -463,7 +463,11 @@ def subchecks(tier, seed):
     g1 = lambda: _history_cases(tier)
     g2 = lambda: _cooc_history_cases(tier)
     g3 = lambda: _fault_cases(tier)
-    return [
+    comp = lambda: (c for c in _history_cases("quick") if c["cfg"] == 0 and c["spec"] in ("ngram", "bpe", "lz", "info_weight", "row_denoise", "wasserstein", "sinkhorn", "kde"))
+    compiled = [Sub("call_histories_compiled", "N", comp, run_histories, total=sum(1 for _ in comp()), kind="compiled-traces", shards=sum(1 for _ in comp()),
+                    describe="the same history search executed with the compiled kernels for ngram, bpe, lz, info_weight, row_denoise, wasserstein, sinkhorn, kde (first configuration each); transitions = real calls replayed",
+                    nontrivial_rule="as for call_histories")]
+    return compiled + [
         Sub("call_histories", "I", g1, run_histories, total=sum(1 for _ in g1()), kind="states", shards=sum(1 for _ in g1()),
             describe="BFS over histories of {fit, fit_transform, transform} x {X1, X2, input that raises} to depth 3(4) for every registered estimator x configuration; state = digest of all attributes",
             nontrivial_rule="a transform after at least two earlier calls was compared with a fresh estimator"),
